@@ -655,7 +655,7 @@ func runScenario(sc *scenario, tr *hx.Trace) (units int) {
 		}
 		return false
 	}
-	deadline := time.Now().Add(8 * time.Second)
+	deadline := time.Now().Add(40 * time.Second)
 	for time.Now().Before(deadline) && !ended() {
 		if links[0].started && links[1].started && toolBiz(0) >= want[0] && toolBiz(1) >= want[1] {
 			break
@@ -664,7 +664,7 @@ func runScenario(sc *scenario, tr *hx.Trace) (units int) {
 	}
 	// settle: nothing moves for 300 ms (the coordinator's flush timer is 100 ms)
 	quiet := false
-	settleDeadline := time.Now().Add(4 * time.Second)
+	settleDeadline := time.Now().Add(20 * time.Second)
 	last := [4]int{-1, -1, -1, -1}
 	lastChange := time.Now()
 	for time.Now().Before(settleDeadline) && !ended() {
